@@ -827,6 +827,194 @@ def case_builtin_snippet_cases(rows):
 
 
 # ---------------------------------------------------------------------------------------------
+# values that contain quote characters: "values appear verbatim between the configured quotes (or braces)"
+# The generic tag reader cannot delimit `title="say "hi""`, so the expectation here is the *whole output string*, built from
+# the statement: <tag + for every attribute (spec_attrs order / merge) ` name=Q + value + Q` (Q = the quote selected by
+# output.attributeQuotes, whatever the value contains) or ` name={value}` + >.
+
+QUOTE_TEMPLATES = ['Q', 'aQ', 'Qa', 'aQb', 'QQ', 'say QhiQ', 'a Qb', 'Q Q', '5Q x', 'QaQbQ', 'it Qs', 'Q-Q_Q']
+QUOTE_PLAIN = ['v', 'v w', 'a-b_c']
+QUOTE_EXPRS = ['e', 'a"b', "a'b", '"', "'", 'x\'y"z', 'f("s")']
+QUOTE_NAMES = ['title', 'n', 'data-x', 'alt', 'onClick', 'class', 'id', 'for']
+QUOTE_TAGS = ['p', 'div', 'item', 'x-y']
+QUOTE_SHORTHANDS = [['class', 'c', 'sh'], ['class', 'd', 'sh'], ['id', 'i', 'sh'], ['id', 'j', 'sh']]
+_QUOTE_TABLE = {'title': 'data-title', 'n': 'data-n', 'id': 'ID2'}
+QUOTE_OPTION_ROWS = [
+    {},
+    {'output.attributeQuotes': 'double'},
+    {'output.attributeQuotes': 'single'},
+    {'output.attributeQuotes': 'single', 'output.reverseAttributes': True},
+    {'output.reverseAttributes': True},
+    {'output.attributeQuotes': 'single', 'output.attributeCase': 'upper'},
+    {'output.attributeQuotes': 'double', 'output.selfClosingStyle': 'xml', 'output.compactBoolean': True},
+    {'output.attributeQuotes': 'single', 'markup.attributes': _QUOTE_TABLE},
+    {'markup.attributes': _QUOTE_TABLE, 'output.selfClosingStyle': 'xhtml'},
+    {'output.attributeQuotes': 'single', 'output.booleanAttributes': ['n', 'title'], 'output.compactBoolean': True},
+    {'output.booleanAttributes': ['n', 'title', 'alt'], 'output.attributeCase': 'lower'},
+]
+
+
+def quote_writings():
+    """[value, how it is written] for every value of the pools: a value containing `"` can only be written between `'` and
+    vice versa; a value without quote characters is written between either, or bare when it has no blank; 'expr' = `{value}`"""
+    res = []
+    for t in QUOTE_TEMPLATES:
+        res.append([t.replace('Q', '"'), 'sq'])
+        res.append([t.replace('Q', "'"), 'dq'])
+    for v in QUOTE_PLAIN:
+        res.append([v, 'dq'])
+        res.append([v, 'sq'])
+        if ' ' not in v:
+            res.append([v, 'raw'])
+    for v in QUOTE_EXPRS:
+        res.append([v, 'expr'])
+    return res
+
+
+def _quote_item_text(item):
+    name, value, wq = item
+    if wq == 'sh':
+        return ('.' if name == 'class' else '#') + value
+    if wq == 'dq':
+        return '%s="%s"' % (name, value)
+    if wq == 'sq':
+        return "%s='%s'" % (name, value)
+    if wq == 'expr':
+        return '%s={%s}' % (name, value)
+    return '%s=%s' % (name, value)
+
+
+def _quote_abbr(elems, selfclose):
+    parts = []
+    for tag, segments in elems:
+        s = tag
+        for seg in segments:
+            if seg[0][2] == 'sh':
+                s += ''.join(_quote_item_text(i) for i in seg)
+            else:
+                s += '[' + ' '.join(_quote_item_text(i) for i in seg) + ']'
+        parts.append(s)
+    return '>'.join(parts) + ('/' if selfclose else '')
+
+
+def _quote_expected_tags(segments, syntax, options):
+    """acceptable texts of the attribute part of one open tag"""
+    ms = [{'name': n, 'value': v, 'vt': 'expr' if wq == 'expr' else ('raw' if wq in ('raw', 'sh') else 'quoted')}
+          for seg in segments for n, v, wq in seg]
+    q = "'" if options.get('output.attributeQuotes') == 'single' else '"'
+    texts = ['']
+    for outname, acc in spec_attrs(ms, syntax, options, True):
+        assert isinstance(outname, str) and DROPPED not in acc and ('bare',) not in acc, (outname, acc)
+        alts = sorted(' %s=%s%s%s' % (outname, q, f[1], q) if f[0] == 'q' else ' %s={%s}' % (outname, f[1]) for f in acc)
+        texts = [t + a for t in texts for a in alts]
+    return texts
+
+
+def check_quote_values(elems, syntax, options, selfclose):
+    """elems: [[tag, segments]] written as the chain e0>e1>..., segments: [[ [name, value, how written], ...]] (one segment =
+    one attribute set or a run of shorthands).  The complete output must be the nested tags with, per tag, exactly the
+    attributes of spec_attrs, every value verbatim between the *configured* quote character (or braces)"""
+    options = effective(syntax, options)
+    abbr = _quote_abbr(elems, selfclose)
+    out = _expand(abbr, syntax, options)
+    case = options.get('output.attributeCase') or ''
+    heads = ['']
+    for k, (tag, segments) in enumerate(elems):
+        last = k == len(elems) - 1
+        closers = ['>', '/>', ' />'] if (last and selfclose) else ['>']    # how `tag/` is closed is not C03's business
+        heads = [h + '<' + tag + a + c for h in heads for a in _quote_expected_tags(segments, syntax, options) for c in closers]
+    tail = ''.join('</%s>' % tag for tag, _ in (elems[:-1] if selfclose else elems)[::-1])
+    acceptable = [h + tail for h in heads]
+    ok = out in acceptable
+    if not ok and case:
+        # the statement names output.attributeCase but not its effect: names are compared case-insensitively; values are not
+        # (no value of this clause differs from an attribute name in case only)
+        ok = any(_eq_ignoring_name_case(out, a) for a in acceptable)
+    if ok:
+        return None
+    return '%s (%s, %r) -> %r; per statement (configured quote %s around the verbatim value): %s' % (
+        abbr, syntax, options, out, 'single' if options.get('output.attributeQuotes') == 'single' else 'double',
+        ' or '.join(repr(a) for a in acceptable[:4]))
+
+
+def _eq_ignoring_name_case(out, want):
+    if len(out) != len(want):
+        return False
+    for i, (a, b) in enumerate(zip(out, want)):
+        if a != b:
+            if a.lower() != b.lower():
+                return False
+            # a case difference is tolerated only inside an attribute name, i.e. in a run of name characters that ends at `=`
+            j = i
+            while j < len(want) and (want[j].isalnum() or want[j] in '-_:'):
+                j += 1
+            if j >= len(want) or want[j] != '=':
+                return False
+    return True
+
+
+def quote_single_cases(rows):
+    ws = quote_writings()
+    k = 0
+    for v, wq in ws:
+        for syn in SYNTAXES:
+            for o in rows:
+                k += 1
+                name = QUOTE_NAMES[k % len(QUOTE_NAMES)]
+                if wq == 'expr' and name == 'class':
+                    name = 'title'
+                yield ([[QUOTE_TAGS[k % len(QUOTE_TAGS)], [[[name, v, wq]]]]], syn, o, k % 3 == 0)
+
+
+def quote_pair_cases(rows):
+    ws = quote_writings()
+    k = 0
+    names = [n for n in QUOTE_NAMES if n != 'class']
+    for v1, w1 in ws:
+        for v2, w2 in ws:
+            k += 1
+            n1 = names[k % len(names)]
+            n2 = names[(k + 1 + k // len(names)) % len(names)]
+            if n2 == n1:
+                n2 = 'lang'
+            a, b, b_same = [n1, v1, w1], [n2, v2, w2], [n1, v2, w2]
+            c1 = ['class', v1, w1] if w1 != 'expr' else ['class', 'k', 'raw']
+            arrangements = [
+                [['p', [[a], [b]]]],                                   # p[a][b]
+                [['p', [[a, b]]]],                                     # p[a b]
+                [['p', [[a], [b_same]]]],                              # a repeat: last (first under reverse) wins
+                [['p', [[QUOTE_SHORTHANDS[0]], [a], [QUOTE_SHORTHANDS[2]], [b]]]],
+                [['div', [[a]]], ['p', [[b]]]],                        # div[a]>p[b]: each value on its own element
+                [['p', [[c1], [QUOTE_SHORTHANDS[1]], [b]]]],           # class value with quote characters joined with `.d`
+            ]
+            for j, elems in enumerate(arrangements):
+                kk = k * len(arrangements) + j
+                yield (elems, SYNTAXES[(kk + kk // len(rows)) % len(SYNTAXES)], rows[kk % len(rows)], kk % 3 == 0)
+
+
+def quote_random_cases(rng, n, rows):
+    ws = quote_writings()
+    for _ in range(n):
+        elems = []
+        for _e in range(rng.randint(1, 3)):
+            segs = []
+            for _s in range(rng.randint(0 if elems else 1, 4)):
+                if rng.random() < 0.25:
+                    segs.append([rng.choice(QUOTE_SHORTHANDS)])
+                    continue
+                seg = []
+                for _i in range(rng.choice([1, 1, 2, 3])):
+                    v, wq = rng.choice(ws)
+                    name = rng.choice(QUOTE_NAMES)
+                    if name == 'class' and wq == 'expr':
+                        name = 'alt'          # an expression mention of `class` is outside the statement (cf. notes)
+                    seg.append([name, v, wq])
+                segs.append(seg)
+            elems.append([rng.choice(QUOTE_TAGS), segs])
+        yield (elems, rng.choice(SYNTAXES), rng.choice(rows), rng.random() < 0.3)
+
+
+# ---------------------------------------------------------------------------------------------
 
 SYNTAXES = ['html', 'xml', 'jsx', 'vue']
 
@@ -1034,4 +1222,24 @@ def run(tier, seed):
     nonempty = [p for p in parts if p]
     c7.violations = [v for p in parts for v in p[:50 // max(len(nonempty), 1)]]
     c7.done()
-    return [c1, c2, c3, c4, c5, c6, c7]
+
+    rng8 = random.Random(seed * 7919 + 8)          # own stream again
+    n8 = 4000 if quick else 40000
+    nw = len(quote_writings())
+    c8 = Clause('attr-value-quote-characters', 'B',
+                'attribute values containing quote characters: templates %r with Q = `"` (written between single quotes) and Q = `\'` '
+                '(written between double quotes), plain values %r (written between either quote, or bare) and expressions %r '
+                '(`{...}`), %d writings in all, on names %r of tags %r: (a) every writing alone; (b) every ordered pair of writings '
+                'arranged as p[a][b], p[a b], a repeat of one name, p.c[a]#i[b], div[a]>p[b], p[class=..].d[b]; (c) seeded random chains '
+                'e0>e1>e2 of 1-3 elements with 0-4 attribute sets (1-3 attributes each) / shorthands; every third case self-closing'
+                % (QUOTE_TEMPLATES, QUOTE_PLAIN, QUOTE_EXPRS, nw, QUOTE_NAMES, QUOTE_TAGS),
+                '(a) %d writings x syntaxes %r x %d option rows %r (name, tag rotating); (b) %d pairs x 6 arrangements, (syntax, row) rotating; '
+                '(c) %d cases' % (nw, SYNTAXES, len(QUOTE_OPTION_ROWS), QUOTE_OPTION_ROWS, nw * nw, n8),
+                'a case is (elements with their attribute sets, syntax, option row, self-closing); the complete output string must be the '
+                'nested tags whose attributes are those of spec_attrs, each value verbatim between the quote character selected by '
+                'output.attributeQuotes (braces for expressions), whichever quote characters the value contains', exhaustive=False)
+    run_parallel_sorted(c8, 'bounded.c03', 'check_quote_values',
+                        itertools.chain(quote_single_cases(QUOTE_OPTION_ROWS), quote_pair_cases(QUOTE_OPTION_ROWS),
+                                        quote_random_cases(rng8, n8, QUOTE_OPTION_ROWS)), chunk=1000)
+    c8.done()
+    return [c1, c2, c3, c4, c5, c6, c7, c8]
